@@ -124,6 +124,25 @@ def parse_theorems(path):
     return names, examples
 
 
+def import_closure(mod):
+    """files of all PbVerif.* modules transitively imported by `mod` (including itself)"""
+    seen, todo, out = set(), [mod], []
+    while todo:
+        m = todo.pop()
+        if m in seen:
+            continue
+        seen.add(m)
+        path = lean_module_files([m])[0]
+        if not os.path.exists(path):
+            continue
+        out.append(path)
+        for ln in _strip_comments(open(path).read()).split('\n'):
+            mm = re.match(r'\s*(?:public\s+)?import\s+(PbVerif\.\S+)', ln)
+            if mm:
+                todo.append(mm.group(1))
+    return out
+
+
 class LeanResult:
     def __init__(self):
         self.ok = True
@@ -168,15 +187,13 @@ def lean_check(prop_mod, extra_mods=(), thorough=False, timeout=1500):
         # which theorems of the property file are affected? try to elaborate the file for messages
         res.wall = time.time() - t0
         return res
-    # source audit over every non-generated source file in the closure (all of PbVerif/)
-    for dirpath, _, files in os.walk(os.path.join(LEAN, 'PbVerif')):
-        for f in files:
-            if f.endswith('.lean'):
-                src = _strip_comments(open(os.path.join(dirpath, f)).read())
-                for ln in src.split('\n'):
-                    if FORBIDDEN.search(ln):
-                        res.ok = False
-                        res.failed.append(f'audit:{f}:{ln.strip()[:60]}')
+    # source audit over every source file in the import closure of the property file
+    for path in import_closure(prop_mod):
+        src = _strip_comments(open(path).read())
+        for ln in src.split('\n'):
+            if FORBIDDEN.search(ln):
+                res.ok = False
+                res.failed.append(f'audit:{os.path.basename(path)}:{ln.strip()[:60]}')
     # axiom audit: one generated file printing the axioms of every theorem of the property file
     audit = os.path.join(LEAN, f'_audit_{prop_mod.split(".")[-1]}.lean')
     with open(audit, 'w') as fh:
